@@ -1,1 +1,82 @@
-From V.C06 Require Import Model.
+(* C06 — non-vacuity, concrete runs, refutations. *)
+From Coq Require Import List String ZArith Bool Arith Lia.
+From V.C06 Require Import Model Spec Proofs Run.
+Import ListNotations.
+Open Scope string_scope.
+Open Scope Z_scope.
+
+(* ---- $a = [3,1,2]; $b = $a; ---- *)
+Definition st_copy : state := run [SLit "a" (LList [LInt 3; LInt 1; LInt 2]); SCopy "b" "a"] state0.
+Example ex_copy_same : obs_var 4 st_copy "a" = obs_var 4 st_copy "b".
+Proof. vm_compute. reflexivity. Qed.
+(* $b[0] = 9 does not show through $a (it did before e238f5c: see pre_fix_store_leaks) *)
+Example ex_store_int :
+  let st := exec st_copy (SMut (BVar "b") [KI 0] (AStore 9)) in
+  obs_var 4 st "a" = TArr [(TKI 0, TInt 3); (TKI 1, TInt 1); (TKI 2, TInt 2)] /\
+  obs_var 4 st "b" = TArr [(TKI 0, TInt 9); (TKI 1, TInt 1); (TKI 2, TInt 2)].
+Proof. vm_compute. split; reflexivity. Qed.
+(* unset($a[0]) after array_pop($b): the copy keeps its keys (normalizeDenseIntKeys no longer renames shared cells) *)
+Example ex_unset_after_pop :
+  let st := run [SMut (BVar "b") [] APop; SMut (BVar "a") [KI 0] AUnset] st_copy in
+  obs_var 4 st "b" = TArr [(TKI 0, TInt 3); (TKI 1, TInt 1)] /\
+  obs_var 4 st "a" = TArr [(TKI 1, TInt 1); (TKI 2, TInt 2)].
+Proof. vm_compute. split; reflexivity. Qed.
+
+(* the hypotheses of the theorems hold of the array $a denotes here *)
+Definition a_addr : nat := match var_val st_copy "a" with VArr a => a | _ => 0%nat end.
+Definition b_addr : nat := match var_val st_copy "b" with VArr a => a | _ => 0%nat end.
+Example ex_flat : flat_array (hp st_copy) a_addr.
+Proof.
+  split; [vm_compute; lia|]. split; [|split].
+  - intros c Hc. vm_compute in Hc. vm_compute. repeat (destruct Hc as [<-|Hc]; [lia|]). destruct Hc.
+  - intros c Hc. vm_compute in Hc. repeat (destruct Hc as [<-|Hc]; [vm_compute; reflexivity|]). destruct Hc.
+  - intros c Hc. vm_compute in Hc.
+    repeat (destruct Hc as [<-|Hc]; [split; [vm_compute; reflexivity | vm_compute; lia]|]). destruct Hc.
+Qed.
+Example ex_distinct_objects_shared_cells :
+  a_addr <> b_addr /\ spine (hp st_copy) a_addr = spine (hp st_copy) b_addr.
+Proof. vm_compute. split; [lia | reflexivity]. Qed.
+
+(* ---- explicit reference: $x = &$a[0]; $b = $a; $b[0] = 9  — seen through $a and $x ---- *)
+Example ex_ref_slot :
+  let st := run [SLit "a" (LList [LInt 1; LInt 2]); SRefSlot "x" "a" 0; SCopy "b" "a";
+                 SMut (BVar "b") [KI 0] (AStore 9)] state0 in
+  obs_var 4 st "a" = TArr [(TKI 0, TInt 9); (TKI 1, TInt 2)] /\ obs_var 4 st "x" = TInt 9.
+Proof. vm_compute. split; reflexivity. Qed.
+
+(* ---- objects are handles; clone gives independent array-valued properties ---- *)
+Example ex_handle_and_clone :
+  let st := run [SNewObj "o" "p" (LList [LInt 1; LInt 2]); SCopy "h" "o"; SCloneObj "c" "o";
+                 SMut (BProp "h" "p") [KI 0] (AStore 9); SMut (BProp "c" "p") [] (AAppend 7)] state0 in
+  obs_base 4 st (BProp "o" "p") = TArr [(TKI 0, TInt 9); (TKI 1, TInt 2)] /\
+  obs_base 4 st (BProp "c" "p") = TArr [(TKI 0, TInt 1); (TKI 1, TInt 2); (TKI 2, TInt 7)].
+Proof. vm_compute. split; reflexivity. Qed.
+
+(* ---- REFUTED for nested shapes: $a = [[1,2],[3]]; $b = $a; $b[0][0] = 9 changes $a ---- *)
+Example nested_store_leaks_refuted :
+  exists pre mut,
+    let st0 := run pre state0 in
+    let st1 := run mut st0 in
+    obs_var 4 st0 "a" <> obs_var 4 st1 "a".
+Proof.
+  exists [SLit "a" (LList [LList [LInt 1; LInt 2]; LList [LInt 3]]); SCopy "b" "a"],
+         [SMut (BVar "b") [KI 0; KI 0] (AStore 9)].
+  vm_compute. discriminate.
+Qed.
+
+(* ---- the code before e238f5c: SetIntKey wrote into the shared cell ---- *)
+Example pre_fix_store_leaks :
+  let h := hp st_copy in
+  obs 4 (set_int_key_prefix h b_addr 0 (VInt 9)) (VArr a_addr) <> obs 4 h (VArr a_addr).
+Proof. vm_compute. discriminate. Qed.
+
+(* ---- the checker accepts a faithful observation and flags a leak ---- *)
+Definition ex_case (a1 : tree) : case :=
+  {| c_pre := [SLit "a" (LList [LInt 3; LInt 1]); SCopy "b" "a"]; c_mut := [SMut (BVar "b") [KI 0] (AStore 9)];
+     c_a := OVar "a"; c_b := OVar "b"; c_other_is_a := true; c_ref := false;
+     i_a0 := TArr [(TKI 0, TInt 3); (TKI 1, TInt 1)]; i_b0 := TArr [(TKI 0, TInt 3); (TKI 1, TInt 1)];
+     i_a1 := a1; i_b1 := TArr [(TKI 0, TInt 9); (TKI 1, TInt 1)] |}.
+Example ex_check_ok : check_case (ex_case (TArr [(TKI 0, TInt 3); (TKI 1, TInt 1)])) = [].
+Proof. vm_compute. reflexivity. Qed.
+Example ex_check_leak : check_case (ex_case (TArr [(TKI 0, TInt 9); (TKI 1, TInt 1)])) = [1%nat; 2%nat].
+Proof. vm_compute. reflexivity. Qed.
